@@ -17,7 +17,7 @@ pub const ALPHA_STR: &[&str] = &["'", "{", "}", ":", "<", "\\", "u", "\n", "#", 
 /// comment / line-ending mode: multi-line comments (nested), CR LF pairs inside and outside them
 /// keyword mode: keywords with multi-token lookahead (`else if`), raw-string starts, dots before
 /// keywords, next to multi-byte characters
-pub const ALPHA_KW: &[&str] = &["else", "if", "i", "f", " ", "é", "字", "😀", "\n", ".", "r", "'", "#"];
+pub const ALPHA_KW: &[&str] = &["else", "if", "i", "f", " ", "é", "字", "😀", "\n", "\r", ".", "r", "'", "#"];
 pub const ALPHA_CMT: &[&str] = &["#", "-", "\r", "\n", "a", " ", "'"];
 
 #[derive(Default)]
